@@ -65,6 +65,8 @@ def workloop(self, debug=debug, now=monotonic, pid=None):
                 try:
                     result = (True, prepare_result(fun(*args, **kwargs)))
                 except BaseException:
+                    if _should_have_exited[0]:
+                        raise
                     result = (False, ExceptionInfo())
                 try:
                     put((READY, (job, i, result, inqW_fd)))
